@@ -65,7 +65,8 @@ class Ctx:
             shutil.copy(os.path.join(REPO, "go.sum"), os.path.join(src, "go.sum"))
             if REPO != "/repo":
                 p = os.path.join(src, "go.mod")
-                open(p, "w").write(open(p).read().replace("=> /repo", "=> " + REPO))
+                text = open(p).read().replace("=> /repo", "=> " + REPO)
+                open(p, "w").write(text)
         cmd = [GO, "test", "-c", "-tags", "verif", "-vet=off", "-o", out]
         if race:
             cmd.insert(3, "-race")
@@ -167,18 +168,38 @@ class Ctx:
             res["generated"], res["distinct"] = int(m.group(1)), int(m.group(2))
         return res
 
-    def model_check(self, family, module, cfg, env=None, timeout=1800, workers=None, expect_ok=True):
+    @staticmethod
+    def parse_coverage(out):
+        """Per-action counts of a `-coverage 1` run: {action: [distinct states, states generated]}."""
+        cov = {}
+        for m in re.finditer(r"^<(\w+) line \d+, col \d+ to line \d+, col \d+ of module (\w+)>: (\d+):(\d+)\s*$", out, re.M):
+            name = m.group(1)
+            d, g = int(m.group(3)), int(m.group(4))
+            if name in cov:
+                d, g = d + cov[name][0], g + cov[name][1]
+            cov[name] = [d, g]
+        return cov
+
+    def model_check(self, family, module, cfg, env=None, timeout=1800, workers=None, expect_ok=True, coverage=None):
         """Exhaustive TLC run of a design-level configuration.  Its result does not depend
         on /repo; a failure here is a broken specification, i.e. an infrastructure error."""
-        r = self.tlc(family, module, cfg, env=env, timeout=timeout, workers=workers)
+        if coverage is None:
+            coverage = expect_ok and os.environ.get("VERIF_NO_COVERAGE") != "1"
+        r = self.tlc(family, module, cfg, env=env, timeout=timeout, workers=workers, extra_args=("-coverage", "1") if coverage else ())
         ok = "Model checking completed. No error has been found." in r["out"]
         self.log("TLC %s/%s %s: %d generated / %d distinct, %.1fs, %s" %
                  (family, module, cfg, r["generated"], r["distinct"], r["wall"], "ok" if ok else "ERROR"))
         if expect_ok and not ok:
             raise Infra("TLC found an error in the design-level model %s/%s (%s):\n%s" % (family, module, cfg, r["out"][-3000:]))
         m = self.coverage.setdefault("models", [])
-        m.append({"module": module, "cfg": cfg, "states_generated": r["generated"], "distinct_states": r["distinct"],
-                  "wall_s": round(r["wall"], 1), "ok": ok})
+        entry = {"module": module, "cfg": cfg, "states_generated": r["generated"], "distinct_states": r["distinct"],
+                 "wall_s": round(r["wall"], 1), "ok": ok}
+        if coverage and ok:
+            cov = self.parse_coverage(r["out"])
+            acts = {k: v for k, v in cov.items() if k not in ("Init",)}
+            entry["action_coverage"] = acts
+            entry["actions_never_taken"] = sorted(k for k, v in acts.items() if v[1] == 0)
+        m.append(entry)
         self.coverage["states"] = self.coverage.get("states", 0) + r["distinct"]
         self.coverage["transitions"] = self.coverage.get("transitions", 0) + r["generated"]
         return r
